@@ -38,6 +38,8 @@ func genC14(seed uint64, tier string) *plan.Plan {
 	pl := &plan.Plan{Cfg: map[string]int64{}}
 	udp := r.IntN(3) > 0
 	pl.Cfg["domain"] = int64(r.Uint32())
+	// the exporting process is not created on a whole second: its ticks fall inside seconds
+	pl.Cfg["start_frac_ms"] = []int64{0, 0, 250, 500, 999}[r.IntN(5)]
 	var R time.Duration
 	if udp {
 		pl.Cfg["proto"] = 1
@@ -71,7 +73,9 @@ func genC14(seed uint64, tier string) *plan.Plan {
 			// move to just before / on / just after the next tick, or somewhere else
 			k := now/R + 1
 			var t time.Duration
-			switch r.IntN(5) {
+			switch r.IntN(6) {
+			case 5:
+				t = k*R - []time.Duration{100, 250, 600}[r.IntN(3)]*time.Millisecond // shortly before the tick, often in the tick's own second
 			case 0:
 				t = k * R
 			case 1:
@@ -249,6 +253,9 @@ func runC14(pl *plan.Plan, out *plan.Outcome) {
 			}
 		}
 		opts.noPeer = true // the peer task below accepts (and, with a window, reads)
+		if f := cfgOr(pl, "start_frac_ms", 0); f > 0 {
+			env.Sleep(time.Duration(f) * time.Millisecond)
+		}
 		s, err := newExpSessionOpts(env, opts)
 		if err != nil {
 			out.Trouble = "exporter init failed: " + err.Error()
